@@ -1392,11 +1392,27 @@ impl PhysicalPlanner {
                     .position(|(_, r)| matches!(r, Expr::Column(_)))
                     .unwrap_or(0);
                 let probe_rt_filter = if rt_eligible && !on.is_empty() {
-                    if let Some(Expr::Column(c)) = on.get(rt_pair).map(|(_, r)| r) {
+                    // The filter is keyed by NAME in the provider schema, so
+                    // the probe key must really BE that base column: a
+                    // projection that computes `a + 2 AS a` re-uses the name
+                    // for other values, and filtering the scan's `a` by the
+                    // build keys dropped the rows that match after the `+ 2`.
+                    let key_is_base_column = |c: &crate::planner::Column| {
+                        matches!(
+                            crate::optimizer::rules::column_origin(right_plan, c),
+                            crate::optimizer::rules::ColumnOrigin::Base(_, ref n)
+                                if n.eq_ignore_ascii_case(&c.name)
+                        )
+                    };
+                    if let Some(Expr::Column(c)) = on
+                        .get(rt_pair)
+                        .map(|(_, r)| r)
+                        .filter(|r| matches!(r, Expr::Column(c) if key_is_base_column(c)))
+                    {
                         // The probe-side streaming scan may sit under column
                         // pass-through Projects (decorrelated subquery
-                        // shapes); the filter column is resolved by NAME in
-                        // the provider schema, so digging through is safe.
+                        // shapes); digging through them is safe for a key that
+                        // is passed through unchanged (checked above).
                         let mut probe_leaf = Arc::clone(&right);
                         while probe_leaf.name() == "Project" {
                             let ch = probe_leaf.children();
